@@ -132,7 +132,8 @@ def lower_match_statements(tree):
                     return None
                 inner = [ast.If(test=guard, body=body, orelse=rest)] if (binds or t is None) else None
                 if inner is None:
-                    t = ast.BoolOp(op=ast.And(), values=[t, guard])
+                    more = list(guard.values) if isinstance(guard, ast.BoolOp) and isinstance(guard.op, ast.And) else [guard]
+                    t = ast.BoolOp(op=ast.And(), values=[t] + more)
                     arm_body = binds + body
                 else:
                     arm_body = binds + inner
